@@ -171,7 +171,7 @@ impl Prop for C02 {
             }
         }
         // A3: the Connector object was used before (refused attempts, a complete connection) and re-configured
-        for earlier in 1..=4u8 {
+        for earlier in 1..=11u8 {
             for use_nla in [true, false] {
                 for check in [false, true] {
                     for sel in [0u32, 1, 2, 8] {
@@ -208,7 +208,7 @@ impl Prop for C02 {
             }
         }
         // D: direct x224::Client::connect with every offered mask
-        for mask in [0u32, 1, 2, 3, 8, 0xB] {
+        for mask in [0u32, 1, 2, 3, 8, 0xB, 4, 0x10, 0x100, 0x1_0000, 0x1_0001, 0x1_0003, 0x8000_0000, 0xFFFF_0000, 0xFFFF_FFF4] {
             for sel in [0u32, 1, 2, 3, 4, 8, 9, 0x10, 0xB, 0xFFFF_FFFF] {
                 for k in [CcKind::Response, CcKind::Failure, CcKind::Absent] {
                     cs.push(Case { direct_mask: Some(mask), cc_kind: k, selected: sel, block: "offered-mask", ..base.clone() });
@@ -229,6 +229,17 @@ impl Prop for C02 {
             for use_nla in [true, false] {
                 for sel in [0u32, 1, 2, 3, 4, 8, 0xB] {
                     cs.push(Case { use_nla, selected: sel, mode, block: "selected-value-x-mode", ..base.clone() });
+                }
+            }
+        }
+        // A2b: logon mode x NLA x RDP_NEG_RSP flag byte x selection (a flag of the reply must not change what counts as offered;
+        // 0x08 = RESTRICTED_ADMIN_MODE_SUPPORTED, 0x01 = EXTENDED_CLIENT_DATA_SUPPORTED)
+        for mode in 0..=3u8 {
+            for use_nla in [true, false] {
+                for flags in [0x08u8, 0x01, 0x09, 0x1F, 0xFF] {
+                    for sel in [0u32, 1, 2, 8, 0xA] {
+                        cs.push(Case { use_nla, selected: sel, mode, cc_flags: flags, block: "mode-x-flags-x-selection", ..base.clone() });
+                    }
                 }
             }
         }
@@ -283,7 +294,7 @@ impl Prop for C02 {
         json!({"idx": idx, "case": self.cases[idx as usize]})
     }
     fn rule(&self) -> String {
-        "cases = (connector configuration | offered mask, server certificate, connection-confirm contents). [selected-value] all 256 low-byte values, every single bit 2^8..2^31 and mixed patterns x NLA on/off x certificate checking on/off; [reply-kind] failure / echoed request / absent / every other type byte x 6 values; [flags] every flag byte x valid and invalid selection; [length-field]; [offered-mask] x224::Client::connect with masks {0,1,2,3,8,0xB} x 10 selections x 3 kinds; [offered-mask-no-provider] the same without an authentication provider; [selected-value-x-mode] 7 selections under restricted admin / blank credentials / hash logon; the negotiation request on the wire must offer exactly the configured protocols; [write-refused] one write call refused by the transport at 11 byte positions from the request to the application records, NLA on and off: whatever was written obeys the same rules, and (pair block) so does the connection that follows in the same process; [connector-reuse] a Connector that served one / two refused attempts or a complete connection under another configuration (or one refused attempt under the same) and was re-configured, x NLA x checking (untrusted certificate when on) x selections {0,1,2,8}; [two-upgrades] every ordered pair of {start_ssl, start_nla} x {checking on, off} on one transport against an untrusted, an expired and a trusted certificate; [certificate] trusted RSA, trusted EC, a leaf of a trusted root; and six kinds of untrusted certificate: unknown self-signed, trusted-but-expired, trusted-but-not-yet-valid, leaf of an unknown root, leaf naming the trusted root but signed by another key, trusted certificate with a flipped signature bit; x checking x NLA x logon mode (plain, restricted admin, blank credentials, NT hash) and x the six orders of the Connector builder calls. Executed through the real Connector::connect over real TLS. Non-trivial: the reply is not the honest one for the configuration.".into()
+        "cases = (connector configuration | offered mask, server certificate, connection-confirm contents). [selected-value] all 256 low-byte values, every single bit 2^8..2^31 and mixed patterns x NLA on/off x certificate checking on/off; [reply-kind] failure / echoed request / absent / every other type byte x 6 values; [flags] every flag byte x valid and invalid selection; [length-field]; [offered-mask] x224::Client::connect with masks {0,1,2,3,8,0xB} and masks holding bits no protocol uses, in the low and in the high word (4, 0x10, 0x100, 0x10000, 0x10001, 0x10003, 0x80000000, 0xFFFF0000, 0xFFFFFFF4) x 10 selections x 3 kinds; [offered-mask-no-provider] the same without an authentication provider; [selected-value-x-mode] 7 selections under restricted admin / blank credentials / hash logon; [mode-x-flags-x-selection] 4 logon modes x NLA on/off x reply flag bytes {0x08, 0x01, 0x09, 0x1F, 0xFF} x selections {0,1,2,8,0xA}; the negotiation request on the wire must offer exactly the configured protocols; [write-refused] one write call refused by the transport at 11 byte positions from the request to the application records, NLA on and off: whatever was written obeys the same rules, and (pair block) so does the connection that follows in the same process; [connector-reuse] a Connector that served one / two refused attempts or a complete connection under another configuration (or one refused attempt under the same) and was re-configured, or that completed a connection under a configuration differing only in certificate checking / only in use_nla / only in the logon flags after which only those setters were called again, x NLA x checking (untrusted certificate when on) x selections {0,1,2,8}; [two-upgrades] every ordered pair of {start_ssl, start_nla} x {checking on, off} on one transport against an untrusted, an expired and a trusted certificate; [certificate] trusted RSA, trusted EC, a leaf of a trusted root; and six kinds of untrusted certificate: unknown self-signed, trusted-but-expired, trusted-but-not-yet-valid, leaf of an unknown root, leaf naming the trusted root but signed by another key, trusted certificate with a flipped signature bit; x checking x NLA x logon mode (plain, restricted admin, blank credentials, NT hash) and x the six orders of the Connector builder calls. Executed through the real Connector::connect over real TLS. Non-trivial: the reply is not the honest one for the configuration.".into()
     }
     fn assumptions(&self) -> Vec<String> {
         vec![
